@@ -23,6 +23,7 @@ RULE = ("operation sequences of length 2..7 on the real default stack [bottom pr
         "disconnect errno. stream 'parked': a contact without a session whose key request fails, then later messages of that contact. distinct = distinct op sequence.")
 RULE += (" Keep-alive rounds also with a ping of the application's own and with a stray pong.")
 RULE += (" Stanza refused by the coder at its last attribute (send-unencodable-late); the frame of a follow-up send is compared with the stanza's own encoding.")
+RULE += (" stream 'login': the server's <success> with the application's callback raising (same / other thread): error reported, the layers below told about the login once, keep-alive started, later frames and sends processed.")
 ASSUMPTIONS = ["operations are issued one at a time (by any thread): locks are threading.Lock without owner, so a held lock at quiescence means "
                "every later acquire blocks forever — detected deterministically by tracked locks instead of timeouts",
                "the sequence streams issue one operation at a time; concurrent receives (with a failure while another thread's frame is queued) are run "
@@ -159,6 +160,10 @@ def cases(chk):
     for _ in range(chk.scale(4, 40)):
         yield "numbering", {"sizes": [r.choice(["small", "small", "big", "edge", "under"]) for _i in range(r.randint(2, 5))]}
     # the keep-alive's bookkeeping across failures while an answer is handled
+    # the stanza whose handling fails is the server's <success>: the application's callback raises while the login is announced to it
+    for mode in ("callback-raises", "ok"):
+        for thread in (0, 1):
+            yield "login", {"mode": mode, "thread": thread}
     yield "keepalive", {"rounds": ["pong-callback-raises", "pong", "pong"]}
     yield "keepalive", {"rounds": ["pong", "pong-callback-raises", "pong-callback-raises", "pong"]}
     yield "keepalive", {"rounds": ["pong-undecodable", "pong"]}
@@ -194,7 +199,7 @@ def cases(chk):
 
 
 def nontrivial(stream, case):
-    if stream in ("concurrent", "coalesced", "segfail", "dispatchers", "keepalive", "numbering", "sockreset", "parked"):
+    if stream in ("concurrent", "coalesced", "segfail", "dispatchers", "keepalive", "numbering", "sockreset", "parked", "login"):
         return repr(case)
     return (tuple(case["ops"]), tuple(case["threads"]))
 
@@ -620,6 +625,84 @@ def run_keepalive(chk, case):
     return fails
 
 
+def run_login(chk, case):
+    """the server's <success> on the real default stack, with the application's callback raising while it is told: the error reaches the caller and
+    the stack stays usable AS A LOGGED-IN STACK — the layers below were told that the login succeeded (the keep-alive is started, unsent keys would
+    be uploaded), later frames and sends are processed, no lock stays held."""
+    import threading
+    from yowsup.structs import ProtocolTreeNode
+    from yowsup.layers.auth import YowAuthenticationProtocolLayer
+    from yowsup.layers.coder.encoder import WriteEncoder
+    from yowsup.layers.coder.tokendictionary import TokenDictionary
+    from yowsup.layers.protocol_presence.protocolentities import AvailablePresenceProtocolEntity
+    import yowsup.layers.protocol_iq.layer as iqmod
+    fails = []
+    stack, insts, bottom, top, noise = build()
+    iq = [x for x in insts[IDX["protocol"]].sublayers if type(x).__name__ == "YowIqProtocolLayer"][0]
+    started = []
+    orig_start = iqmod.YowPingThread.start
+    iqmod.YowPingThread.start = lambda self: started.append(self)      # the thread itself is C16's subject; here: was the keep-alive started at all
+
+    def frame(node):
+        body = noisefake.wire(bytes(bytearray(WriteEncoder(TokenDictionary()).protocolTreeNodeToBytes(node))))
+        return _be24(len(body)) + body
+
+    def on_thread(fn):
+        box = []
+
+        def run():
+            try:
+                fn()
+                box.append(("ok", None))
+            except tracked.BlockedForever as e:
+                box.append(("blocked", e))
+            except Exception as e:
+                box.append(("raised", e))
+        if case["thread"]:
+            t = threading.Thread(target=run)
+            t.start()
+            t.join()
+        else:
+            run()
+        return box[0]
+    try:
+        what = "<success> handled with the application's callback %s" % ("raising" if case["mode"] == "callback-raises" else "returning")
+        top.armed = case["mode"] == "callback-raises"
+        res, err = on_thread(lambda: stack.receive(frame(ProtocolTreeNode("success", {"t": "1500000000", "props": "4", "creation": "1400000000", "location": "atn"}))))
+        top.armed = False
+        chk.hit("login:" + case["mode"])
+        want = "raised" if case["mode"] == "callback-raises" else "ok"
+        held = [l.name for l in tracked.held_locks()]
+        if res == "blocked":
+            fails.append(oracle("C12:blocks-forever", "%s never completes: %s" % (what, err)))
+        elif res != want:
+            fails.append(oracle("C12:error-not-reported" if want == "raised" else "C12:followup-fails", "%s ended %s (%r)" % (what, res, err)))
+        elif held:
+            fails.append(oracle("C12:lock-leak:layer", "%s: these locks stay held: %s" % (what, ", ".join(held))))
+        if fails:
+            return fails
+        authed = [e for e in bottom.events if e.getName() == YowAuthenticationProtocolLayer.EVENT_AUTHED]
+        if len(authed) != 1 or not started:
+            fails.append(oracle("C12:login-half-done-after-callback-failure" if case["mode"] == "callback-raises" else "C12:login-not-announced",
+                                "%s: the layers below were told about the login %d time(s), the keep-alive was started %d time(s) — the stack goes on as one that "
+                                "never logged in (no keep-alive, unsent keys stay unsent)" % (what, len(authed), len(started))))
+            return fails
+        # later frames and sends
+        nb = len(bottom.sent)
+        res, err = on_thread(lambda: stack.receive(frame(ProtocolTreeNode("iq", {"id": "srv-1", "type": "get", "from": "s.whatsapp.net", "xmlns": "urn:xmpp:ping"}))))
+        if res != "ok" or len(bottom.sent) - nb != 2:
+            fails.append(oracle("C12:followup-fails", "%s, then a server ping: ended %s (%r), %d chunks written" % (what, res, err, len(bottom.sent) - nb)))
+            return fails
+        nb = len(bottom.sent)
+        res, err = on_thread(lambda: stack.send(AvailablePresenceProtocolEntity()))
+        if res != "ok" or len(bottom.sent) - nb != 2:
+            fails.append(oracle("C12:followup-fails", "%s, then a send: ended %s (%r), %d chunks written" % (what, res, err, len(bottom.sent) - nb)))
+    finally:
+        iqmod.YowPingThread.start = orig_start
+        tracked.release_all()
+    return fails
+
+
 def run_sockreset(chk, case):
     """the real asyncore dispatcher over a socket whose send fails with a disconnect errno (the peer reset the connection and a WRITE is the
     first to notice): asyncore then calls handle_close() from inside the send.  The failure must end in the connection being reported down,
@@ -853,6 +936,8 @@ def run_case(chk, stream, case):
         return run_numbering(chk, case)
     if stream == "keepalive":
         return run_keepalive(chk, case)
+    if stream == "login":
+        return run_login(chk, case)
     if stream == "dispatchers":
         return run_dispatchers(chk, case)
     if stream == "concurrent":
@@ -1025,7 +1110,7 @@ def run_case(chk, stream, case):
 
 
 def shrink(stream, case):
-    if stream in ("concurrent", "dispatchers", "sockreset", "parked"):
+    if stream in ("concurrent", "dispatchers", "sockreset", "parked", "login"):
         return
     if stream == "numbering":
         zs = case["sizes"]
